@@ -18,11 +18,11 @@ CHECKS = {
    "DESIGN.md §4 C02"),
  "C03": ("exploration",
    "property-based generation of pipelined request sequences against four dispatch paths built from one router factory; envelope reference model + in-process twin as oracle; completeness by half-close and read-to-EOF; cross-transport differential",
-   "Generated sequences (1..64 requests over the product of versions, query formats, registered/unregistered/non-UTF-8/empty queries for every built-in handler kind, body formats, well-formed/truncated/random/empty bodies, notify 0/1, in generated TCP segmentations, with and without middleware) are sent to Server, AsyncServer and the WebSocket server (inline and off-reader routes): exact rejection codes, no response to notifies, exactly one response per other request (nothing extra after half-close), id and query echo, request order for inline responses, handler observation logs equal to an in-process twin (exactly once / never), and identical response fields on every path.",
+   "Generated sequences (1..64 requests over the product of versions, query formats, registered/unregistered/non-UTF-8/empty queries for every built-in handler kind, body formats, well-formed/truncated/random/empty bodies, notify 0/1, in generated TCP segmentations, with and without middleware) are sent to Server, AsyncServer and the WebSocket server (inline and off-reader routes): exact rejection codes, no response to notifies, exactly one response per other request (nothing extra after half-close), id and query echo, request order for inline responses, handler observation logs equal to an in-process twin (exactly once / never), and identical response fields on every path. Under backpressure on the WebSocket server (outbound capacities 1..1024, stalled peer, competing notifies and broadcasts) every pipelined request still gets exactly one response, inline ones in order.",
    "notify flag 0/1 only; handlers return; the handler's own answer is predicted by running the same handler in-process.",
    "DESIGN.md §4 C03"),
  "C04": ("exploration",
-   "property-based + bounded-exhaustive schedule generation against a scripted peer: all K! reply orders (K<=5 quick / 6 thorough) for three clients, random valid interleavings of receive/answer events up to K=64 with injected unknown-id, duplicate and notify-reuse frames; self-identifying response bodies as oracle",
+   "property-based + bounded-exhaustive schedule generation against a scripted peer: all K! reply orders (K<=5 quick / 6 thorough) for three clients, random valid interleavings of receive/answer events up to K=64 with injected unknown-id, duplicate and notify-reuse frames; self-identifying response bodies as oracle; a verif-hooks probe (client.written) holds the caller after its write until the response has been processed (overtake sub-check)",
    "Each of K concurrent calls must return the body that names its own path, batch results must be positional, injected notifies must reach only the subscriber (exactly once), and all ids on a connection must be distinct, for every generated reply order and injection pattern on Client, AsyncClient and WebSocketClient (async clients on a multi-thread runtime so reader and callers run in parallel).",
    "Thread/task interleavings are sampled by the OS scheduler, not enumerated; the model-checking clause of the quantifier is outside this technique.",
    "DESIGN.md §4 C04"),
@@ -38,7 +38,7 @@ CHECKS = {
    "DESIGN.md §4 C05"),
  "C06": ("fault_enumeration",
    "enumerated fault x step grid plus proptest-generated fault cases against scripted TCP/WebSocket peers; watchdog-bounded 'must return' obligations; timeout/cancel races with a verif-hooks residue probe",
-   "For each client and each fault (close, RST, half-close, bad magic, length mismatch, truncated header, unallocatable length, partial response at 5 byte offsets then close/RST, WS text frame, WS protocol violation; optionally a peer that stays silent after the malformed frame) injected after j requests were read and a were answered with 0..16 calls in flight: every unanswered call and a later call must return Err within 10 s, the notify subscriber must see end-of-stream, and the pending map must be empty; timeout races (response at timeout +-5 ms, never answered, or task abort) must leave no residue and not disturb other calls.",
+   "For each client and each fault (close, RST, half-close, bad magic, length mismatch, truncated header, unallocatable length, partial response at 5 byte offsets then close/RST, WS text frame, WS protocol violation, WS Close frame with TCP kept open; optionally a peer that stays silent after the malformed frame) injected after j requests were read and a were answered with 0..16 calls in flight: every unanswered call and a later call must return Err within 10 s, the notify subscriber must see end-of-stream, and the pending map must be empty; timeout races (response at timeout +-5 ms, never answered, or task abort) must leave no residue and not disturb other calls, also through AsyncClient::forward_message_with_timeout, whose caller-chosen id must be reusable at once.",
    "Watchdog 10 s; either outcome accepted in a race; answered calls may fail after RST.",
    "DESIGN.md §4 C06"),
  "C07": ("exploration",
@@ -53,7 +53,7 @@ CHECKS = {
    "DESIGN.md §4 C08"),
  "C10": ("fault_enumeration",
    "generated failure matrix (proptest) against the library's producers and a harness-owned scripted SVS server, crash-point enumeration by killing a child process at every commit-path probe hit, and SIGKILL at generated times; filesystem state as oracle",
-   "For ten pullers, six failure kinds (producer failure at chunk boundaries +-1, connection cut after every k-th response, rejecting verifier, over-long trailer, incompatible output), absent or pre-existing destinations and both compressions: a failure returns Err, leaves the destination byte-identical to its prior state and leaves no .svspart file; success publishes exactly the complete content (trailer stripped). A child process that runs the same pull and dies (_exit) at every probe hit before the rename leaves the destination unchanged, after it the complete content; SIGKILL at generated times leaves it unchanged or complete.",
+   "For ten pullers, six failure kinds (producer failure at chunk boundaries +-1, connection cut after every k-th response, rejecting verifier, over-long trailer, incompatible output), absent or pre-existing destinations and both compressions: a failure returns Err, leaves the destination byte-identical to its prior state and leaves no .svspart file; success publishes exactly the complete content (trailer stripped). A child process that runs the same pull and dies (_exit) at every probe hit before the rename leaves the destination unchanged, after it the complete content; SIGKILL at generated times leaves it unchanged or complete; after any interrupted pull a later successful pull of shorter content to the same destination publishes exactly that content.",
    "Crash points are the verif-hooks probes on the commit path plus unhooked SIGKILLs; power-loss durability of sync_all is not observable.",
    "DESIGN.md §4 C10"),
  "C11": ("exploration",
@@ -99,7 +99,7 @@ CHECKS = {
  "C19": ("fault_enumeration",
    "enumerated per-attempt outcome sequences (exhaustive in thorough, all sequences of length <=2 plus random in quick) against a scripted fake node switched from the verif-hooks attempt probe; attempt-history oracle",
    "For every generated sequence of per-attempt outcomes over the seven-outcome alphabet and max_attempts 1..3, on Fleet and AsyncFleet: attempts (counted by the probe, refused ones included) never exceed max_attempts, no attempt follows a reply, the call reports that reply (value or application error) or an error when none arrived, and once the node is healthy again a call succeeds by the second try at the latest; broadcast addresses exactly the nodes carrying all requested tags (all 8 tag subsets x 4 assignments).",
-   "Attempt counting and node switching rely on the verif-hooks probe at the start of each attempt; malformed-reply retry not asserted.",
+   "Attempt counting and node switching rely on the verif-hooks probe at the start of each attempt; malformed-reply retry not asserted. A connection that went silent stays silent (hung) while new connections are answered. A failing case is re-run once with a 20x longer call timeout and reported only if it fails again (load-dependent late replies).",
    "DESIGN.md §4 C19"),
 }
 
